@@ -225,9 +225,12 @@ class Check:
         preds = {}
         replays = {}
         trivial = set()
+        relayed = {}
         if self.harness_ok:
             ip = os.path.join(self.work, "impl.txt")
             env = dict(os.environ, GOMEMLIMIT="6GiB", GOTRACEBACK="single")
+            if self.model_ok:
+                env["VERIF_MODEL_BIN"] = self.model_bin
             remaining = list(self.cases)
             open(ip, "w").close()
             crashes = 0
@@ -273,6 +276,8 @@ class Check:
                 rest = sp[2] if len(sp) > 2 else ""
                 if kind == "OBS":
                     impl.setdefault(cid, []).append(rest)
+                elif kind == "MOBS":
+                    relayed.setdefault(cid, []).append(rest)
                 elif kind == "PRED":
                     preds.setdefault(cid, []).append(rest)
                 elif kind == "REPLAY":
@@ -282,7 +287,11 @@ class Check:
                 elif kind == "DONE":
                     pass
         model = {}
-        if self.model_ok and not self.cfg.get("no_model"):
+        if self.cfg.get("relay_model"):
+            # the harness drives the model server itself (interactive oracle protocol) and relays
+            # the model's observations
+            model = relayed
+        elif self.model_ok and not self.cfg.get("no_model"):
             mp = os.path.join(self.work, "model.txt")
             with open(self.cases_path) as fin, open(mp, "w") as fout:
                 rc, _ = sh([self.model_bin, self.cfg.get("model", self.pid)], stdin=fin, stdout=fout, stderr=open(os.path.join(self.work, "model.err"), "w"), timeout=tmo)
